@@ -24,6 +24,7 @@ def run(ctx):
         ctx.guard("C17", "lenmask", lambda: typestate.length_follows_masks(ctx, prog))
         ctx.guard("C17", "equiv", lambda: typestate.equiv_exact(ctx, prog))
         ctx.guard("C17", "accumulate", lambda: typestate.accumulate_exact(ctx, prog))
+        ctx.guard("C17", "validnorm", lambda: typestate.valid_normalized_shape(ctx, prog))
         ctx.guard("C17", "like", lambda: fields.like_index(ctx, prog, scope=r"internals::compare::|<internals::compare::", floor=3))
         ctx.guard("C17", "complete", lambda: fields.dest_complete(ctx, prog, scope=r"internals::compare::|<internals::compare::", floor=1))
         ctx.guard("C17", "vis", lambda: vis.representation_private(ctx, prog))
